@@ -35,3 +35,7 @@ Fixpoint stamps_monotone (cis : Z) (l : list child) : bool :=
 (* the stamp an update must carry *)
 Definition stamp_consistent (cis : Z) (c : child) : bool :=
   update_timestamp cis (c_timestamp c) (c_committed c) =? stamp cis c.
+
+(* a history the annotation treats as missing: not found, or found but empty *)
+Definition missing_hist (h : hres) : bool :=
+  match h with HNotFound => true | HFound [] => true | _ => false end.
